@@ -295,7 +295,20 @@ func c13HonestSends(call string) int {
 		}
 		return []env.Answer{env.Honest()}
 	}
-	c13Run(call, w.Conn, cfg.Password, func() context.Context { return w.Ctx }, func() { started = true })
+	done := make(chan struct{})
+	go func() {
+		defer close(done)
+		guard(func() {
+			c13Run(call, w.Conn, cfg.Password, func() context.Context { return w.Ctx }, func() { started = true })
+		})
+	}()
+	select {
+	case <-done:
+	case <-time.After(8 * time.Second):
+		// even with an honest BMC the call (or its preparation) does not come back
+		c13HonestCache[call] = -1
+		return -1
+	}
 	c13HonestCache[call] = n
 	return n
 }
@@ -514,6 +527,13 @@ func runC13(r *rep.R) {
 	}
 	for _, call := range c13Calls {
 		n := c13HonestSends(call)
+		if n < 0 {
+			if r.Shard == 0 {
+				r.Violate("C13/blocks-outside-context-control/"+call+"/honest-bmc", call+": with an honest BMC and a live context the call (or the preparation it needs) is still blocked after 8 s of real time although every transport and back-off wait is virtual", "c13", c13Case{Call: call, Pattern: "honest"}, nil)
+				r.Outcome("violation")
+			}
+			continue
+		}
 		for _, p := range c13Patterns {
 			for step := 0; step <= n; step++ {
 				for _, once := range []bool{false, true} {
@@ -533,6 +553,9 @@ func runC13(r *rep.R) {
 	// real-socket replay
 	for _, call := range c13Calls {
 		n := c13HonestSends(call)
+		if n < 0 {
+			continue
+		}
 		for _, p := range c13Patterns {
 			steps := []int{0}
 			deadlines := []int{300}
